@@ -35,6 +35,14 @@ def harnesses(ctx):
                 stubs=["alloc::fmt::format -> empty string"], fs_array=True, timeout_s=1200, mem_gb=16,
                 outside=["the offsets actually recorded by merge_user_dictionary when plugins registered POS first"])
         for d in (0, 1, 2)
+    ] + [
+        Harness("c12_split_restamp_" + nm, "dic__lexicon_set",
+                ["LexiconSet::get_word_info_subset", "LexiconSet::update_dict_id", "WordInfos::get_word_info", "WordInfoParser::parse", "u32_wid_array_parser", "skip_wid_array"],
+                "word of user dictionary %d whose A split, B split and word structure each hold one arbitrary raw reference; requested lists: %s" % (d, req),
+                kernel="C12-c each requested reference list of a user-dictionary word is re-stamped with the owning dictionary (system references unchanged)",
+                assumptions=["dictionary number and requested lists concrete per harness", "arbitrary raw u32 references"], stubs=["alloc::fmt::format -> empty string"],
+                fs_array=True, timeout_s=1500, mem_gb=16)
+        for nm, d, req in (("b_only_d2", 2, "{B}"), ("all_d2", 2, "{A, B, structure}"), ("a_only_d1", 1, "{A}"))
     ]
 
 
